@@ -439,6 +439,27 @@ def check_make_filename(ctx):
         (lambda v, S: is_lookup(v, "output.suffix"), "suffix"),
     ], res=res)
     S = lambda node: A.src_with(node, nm)
+    # an existing name is recognised by its presence, not by its truth value: '' is a name (a plot placed directly in the output
+    # directory has dirname '', a file without extension has fileext '')
+    from ..kinds import truth_tests
+    by_truth = []
+    for x in A.walk_body(loop.body):
+        if isinstance(x, (ast.If, ast.IfExp, ast.While)):
+            for t in truth_tests(x.test):
+                falsy_default = lambda d: d is None or (isinstance(d, ast.Constant) and not d.value)
+                if isinstance(t, ast.Call) and res.call_canon(t) == "lena.context.functions.get_recursively" and len(t.args) >= 2 \
+                        and "output" in A.src(t.args[1]) and falsy_default(t.args[2] if len(t.args) > 2 else A.kwarg(t, "default")):
+                    by_truth.append((x, t))
+                elif isinstance(t, ast.Call) and isinstance(t.func, ast.Attribute) and t.func.attr == "get" and len(t.args) >= 1 \
+                        and falsy_default(t.args[1] if len(t.args) > 1 else None) and "output" in A.src(t.func.value):
+                    by_truth.append((x, t))
+    for x, t in by_truth:
+        ctx.violation("C19-e", t, "MakeFilename decides whether a name already exists by the truth value of `%s`: an existing empty "
+                      "dirname or fileext (both legal, Write handles them) counts as absent, a later MakeFilename without overwrite "
+                      "replaces it and the file is written elsewhere than the names given first say" % A.short(t, 60),
+                      construct="name-present-by-truth")
+    if by_truth:
+        return
     n_store = 0
     seen = set()
     for p in P.loop_body_paths(loop):
@@ -595,6 +616,7 @@ def check(ctx):
 
 
 VARIANTS = [
+    M("make-filename-name-present-by-truth", "lena/output/make_filename.py", "                if \"output\" in context and key in context[\"output\"]:\n                    if not self._overwrite:\n                        continue", "                if not self._overwrite and lena.context.get_recursively(\n                        context, \"output.\" + key, None):\n                    continue", ["C19-e"]),
     M("latex-missing-flag-unchanged", "lena/output/latex_to_pdf.py", "            try:\n                changed = outputc[\"changed\"]\n            except KeyError:\n                # if context.output.changed is missing, we compare times\n                # for tex and pdf files.\n                try:\n                    pdf_time = os.path.getmtime(data)\n                except os.error:\n                    # probably changed won't be used, but anyway\n                    changed = True\n                else:\n                    tex_time = os.path.getmtime(texfile_name)\n                    changed = tex_time > pdf_time", "            changed = outputc.get(\"changed\", False)", ["C19-g"]),
     M("latex-missing-flag-handler-false", "lena/output/latex_to_pdf.py", "                    tex_time = os.path.getmtime(texfile_name)\n                    changed = tex_time > pdf_time", "                    changed = False", ["C19-g"]),
     M("overwrite-no-flag", "lena/output/write.py", "                    self._write_data(filepath, data)\n                    outputc[\"changed\"] = True\n                    yield (filepath, context)\n                    continue",
